@@ -11,6 +11,7 @@ import (
 	"sort"
 	"strconv"
 	"strings"
+	"sync"
 
 	"github.com/golang/protobuf/proto"
 	"github.com/vx-labs/mqtt-protocol/packet"
@@ -35,6 +36,7 @@ type op struct {
 	Join  bool   `json:"join"`
 	Batch bool   `json:"batch"`
 	Max   int    `json:"max"`
+	Quiet bool   `json:"quiet"` // no probes after this operation (bulk scenarios)
 }
 type scenario struct {
 	Map  string              `json:"map"`  // sess | subs | ret
@@ -326,6 +328,38 @@ func run(r *rec.Recorder, idx int, s scenario) {
 		case "add", "del", "delown", "delsess":
 			seenNodes[o.N] = true
 			w.local(o)
+			if !o.Quiet {
+				probeAll()
+			}
+		case "pardeliver":
+			// node o.To receives the gossip messages o.Ms one by one (memberlist's gossip goroutine: NotifyMsg) while, at the same
+			// time, it merges the full state of node o.From (memberlist's push/pull goroutine: MergeRemoteState).  What it lists
+			// afterwards must not depend on how the two interleave; the trace records them as a delivery and a push.
+			seenNodes[o.To] = true
+			seenNodes[o.From] = true
+			to := w.node(o.To)
+			buf := w.node(o.From).State.Distributor().LocalState(false)
+			var wg sync.WaitGroup
+			start := make(chan struct{})
+			wg.Add(2)
+			go func() {
+				defer wg.Done()
+				<-start
+				for _, m := range o.Ms {
+					for _, raw := range w.msgs[m] {
+						to.State.Distributor().NotifyMsg(raw)
+					}
+				}
+			}()
+			go func() {
+				defer wg.Done()
+				<-start
+				to.State.Distributor().MergeRemoteState(buf, false)
+			}()
+			close(start)
+			wg.Wait()
+			w.r.Emit(rec.Ev{"op": "deliver", "to": o.To, "ms": o.Ms, "batch": false})
+			w.r.Emit(rec.Ev{"op": "push", "from": o.From, "to": o.To})
 			probeAll()
 		case "deliver":
 			seenNodes[o.To] = true
